@@ -236,21 +236,22 @@ theorem razor_evidence_iff (groups : List (List String)) (pil : List PepInfo) (r
     exact ⟨x, hx, (evFor_razor groups rz i x e).mpr hr⟩
 
 /-- "A group's score is -log10 of the smallest PEP among its evidence peptides" — for every
-    strictly antitone `negLog` (the float function `q ↦ -log10(q + 5e-324)` is checked to be one
-    on the PEPs the harness generates) the score of a non-empty evidence list is `negLog` of its
-    smallest PEP; the executable key `bestPepKey` is the instance `negLog q = −q`. -/
-theorem bestpep_score {S : Type} [LinearOrder S] (negLog : Rat → S) (hneg : StrictAnti negLog) (dflt : S)
+    antitone (not necessarily strictly: the float function `q ↦ -log10(q + 5e-324)` is antitone on
+    the doubles but takes equal values on neighbouring doubles, e.g. at 0.01) `negLog` the score of
+    a non-empty evidence list is `negLog` of its smallest PEP; the executable key `bestPepKey` is
+    the instance `negLog q = −q`. -/
+theorem bestpep_score {S : Type} [LinearOrder S] (negLog : Rat → S) (hneg : Antitone negLog) (dflt : S)
     (ev : List Evidence) (hne : ev ≠ []) :
     ∃ m, minPep ev = some m ∧ (∃ e ∈ ev, e.pep = m) ∧ (∀ e ∈ ev, m ≤ e.pep) ∧
       bestPepScoreWith negLog dflt ev = negLog m ∧ bestPepKey ev = -m := by
   obtain ⟨m, hm⟩ := minPep_isSome ev hne
   obtain ⟨h1, h2⟩ := minPep_spec ev m hm
-  refine ⟨m, hm, h1, h2, bestPepScoreWith_eq negLog hneg.antitone dflt ev m hm, ?_⟩
+  refine ⟨m, hm, h1, h2, bestPepScoreWith_eq negLog hneg dflt ev m hm, ?_⟩
   exact bestPepScoreWith_eq (fun q => -q) (fun a b hab => neg_le_neg hab) (-100) ev m hm
 
-/-- "additional evidence never lowers a best-PEP score" — the default score of an empty list being
+/-- "additional evidence never lowers a best-PEP score" — for every antitone `negLog`, the default score of an empty list being
     below every attainable score (−100 against −log10 of a PEP ≤ 1). -/
-theorem bestpep_monotone {S : Type} [LinearOrder S] (negLog : Rat → S) (hneg : StrictAnti negLog) (dflt : S)
+theorem bestpep_monotone {S : Type} [LinearOrder S] (negLog : Rat → S) (hneg : Antitone negLog) (dflt : S)
     (ev ev' : List Evidence) (hsub : ∀ e ∈ ev, e ∈ ev') (hd : ∀ e ∈ ev', dflt ≤ negLog e.pep) :
     bestPepScoreWith negLog dflt ev ≤ bestPepScoreWith negLog dflt ev' := by
   by_cases hne' : ev' = []
@@ -262,7 +263,7 @@ theorem bestpep_monotone {S : Type} [LinearOrder S] (negLog : Rat → S) (hneg :
     subst this; exact le_refl _
   · obtain ⟨m', hm'⟩ := minPep_isSome ev' hne'
     obtain ⟨⟨e', he', hee'⟩, hle'⟩ := minPep_spec ev' m' hm'
-    rw [bestPepScoreWith_eq negLog hneg.antitone dflt ev' m' hm']
+    rw [bestPepScoreWith_eq negLog hneg dflt ev' m' hm']
     by_cases hne : ev = []
     · subst hne
       have := hd e' he'
@@ -270,8 +271,8 @@ theorem bestpep_monotone {S : Type} [LinearOrder S] (negLog : Rat → S) (hneg :
       simpa [bestPepScoreWith] using this
     · obtain ⟨m, hm⟩ := minPep_isSome ev hne
       obtain ⟨⟨e, he, hee⟩, _⟩ := minPep_spec ev m hm
-      rw [bestPepScoreWith_eq negLog hneg.antitone dflt ev m hm]
-      apply hneg.antitone
+      rw [bestPepScoreWith_eq negLog hneg dflt ev m hm]
+      apply hneg
       rw [← hee]
       exact hle' e (hsub e he)
 
@@ -348,7 +349,7 @@ theorem no_evidence_not_ranked (groups : List (List String)) (pil : List PepInfo
 /-- the two halves together (discard mode): the best-PEP score of a group with evidence is `negLog`
     of the smallest PEP among the peptides all of whose proteins lie in that group -/
 theorem group_score_is_best_supporting_pep {S : Type} [LinearOrder S] (negLog : Rat → S)
-    (hneg : StrictAnti negLog) (dflt : S)
+    (hneg : Antitone negLog) (dflt : S)
     (groups : List (List String)) (pil : List PepInfo) (suppress : Bool)
     (evs : List (List Evidence)) (peps : List Rat)
     (h : collectEvidence groups pil none suppress = .ok (evs, peps))
@@ -387,5 +388,12 @@ example : multPepTerms exEv = [1/1000, 1/100] := by decide +kernel
 example : multPepScoreWith (fun q => 1 - q) (1/2) exEv = some ((1 - 1/1000) + (1 - 1/100) + 1/2 * 2) := by
   decide +kernel
 example : StrictAnti (fun q : Rat => -q) := fun _ _ h => neg_lt_neg h
+/-- an antitone `negLog` that is NOT strictly antitone (constant on `[0, 1/100]`, like the float
+    `-log10` on neighbouring doubles) is covered by the three best-PEP theorems -/
+example : Antitone (fun q : Rat => -(max q (1/100))) ∧ ¬ StrictAnti (fun q : Rat => -(max q (1/100))) := by
+  refine ⟨fun a b h => neg_le_neg (max_le_max h (le_refl _)), fun hs => ?_⟩
+  have := hs (show (0 : Rat) < 1/100 by norm_num)
+  norm_num at this
+example : bestPepScoreWith (fun q : Rat => -(max q (1/100))) (-100) exEv = -(1/100) := by decide +kernel
 
 end PgFdr.C05
